@@ -4,7 +4,9 @@
                         the receiver of the user call resolves to the actor (not to a message field / parameter)
      static delegate  : `A::m(p1, .., pn)` with its own parameters in order
      self-consuming   : `let (a, _, ..) = self.inter_play_stop(); return a.m(p1, .., pn)` where a is not a parameter
-     constructor      : the user's constructor receives the handle constructor's parameters in order *)
+     constructor      : the user's constructor receives the handle constructor's parameters in order
+   Nothing here depends on the spelling of the generated binders (`inter_actor` since the repair): the `direct` parameter, the arm
+   pattern, the closure parameter and the stop-reply binder are read from the IR and resolved by scope. *)
 From Coq Require Import List String Ascii NArith Arith Bool Lia.
 Import ListNotations.
 From IT Require Import Sdpl.IR Sdpl.Elab Sdpl.Wf Runtime.Actor Runtime.ActorInv Runtime.Combined.
